@@ -271,6 +271,10 @@ impl<'a, 'b> SchemerContext<'a, 'b> {
         if ty.all == 0 && ty.subtype_data.is_empty() {
             return Ok(Runtype::never());
         }
+        if ty.is_any() {
+            // every value: written out tag by tag it would be a finite union that leaves out functions and symbols
+            return Ok(Runtype::any());
+        }
 
         let mut acc = BTreeSet::new();
 
